@@ -11,12 +11,14 @@ import (
 	"sync"
 	"time"
 
+	"github.com/codelaboratoryltd/bng/pkg/allocator"
 	"github.com/codelaboratoryltd/bng/pkg/dhcp"
 	"github.com/codelaboratoryltd/bng/pkg/dhcpv6"
 	"github.com/codelaboratoryltd/bng/pkg/ebpf"
 	"github.com/codelaboratoryltd/bng/pkg/ha"
 	"github.com/codelaboratoryltd/bng/pkg/nat"
 	"github.com/codelaboratoryltd/bng/pkg/pppoe"
+	"github.com/codelaboratoryltd/bng/pkg/qos"
 	"github.com/codelaboratoryltd/bng/pkg/radius"
 	"github.com/codelaboratoryltd/bng/pkg/ztp"
 	"go.uber.org/zap"
@@ -160,10 +162,22 @@ var sessionStates = []pppoe.SessionState{pppoe.StateDiscovery, pppoe.StateLCPNeg
 	pppoe.StateIPCPNegotiation, pppoe.StateEstablished, pppoe.StateTerminating, pppoe.StateClosed}
 
 func newPPPoEServer(auth string, st pppoe.SessionState, withSession bool) (*pppoe.Server, *pppoe.Session) {
-	srv, err := pppoe.VerifC09NewServer(pppoe.ServerConfig{Interface: "veth0", ACName: "ac", ServiceName: "internet", ServerIP: "10.0.0.1",
-		ClientPool: "10.0.0.0/28", PrimaryDNS: "8.8.8.8", SecondaryDNS: "8.8.4.4", AuthType: auth}, serverMAC, nop)
+	return newPPPoEServerCfg(auth, st, withSession, false, nil)
+}
+
+// bare: no client pool, no DNS servers, default names; rc: optional RADIUS client (PAP goes to RADIUS)
+func newPPPoEServerCfg(auth string, st pppoe.SessionState, withSession, bare bool, rc *radius.Client) (*pppoe.Server, *pppoe.Session) {
+	cfg := pppoe.ServerConfig{Interface: "veth0", ACName: "ac", ServiceName: "internet", ServerIP: "10.0.0.1",
+		ClientPool: "10.0.0.0/28", PrimaryDNS: "8.8.8.8", SecondaryDNS: "8.8.4.4", AuthType: auth}
+	if bare {
+		cfg = pppoe.ServerConfig{Interface: "veth0", AuthType: auth}
+	}
+	srv, err := pppoe.VerifC09NewServer(cfg, serverMAC, nop)
 	if err != nil {
 		panic(err)
+	}
+	if rc != nil {
+		srv.SetRADIUSClient(rc)
 	}
 	if !withSession {
 		return srv, nil
@@ -174,7 +188,9 @@ func newPPPoEServer(auth string, st pppoe.SessionState, withSession bool) (*pppo
 	}
 	if st >= pppoe.StateIPCPNegotiation {
 		s.Username, s.Authenticated = "alice", true
-		s.ClientIP, s.ServerIP = net.IPv4(10, 0, 0, 2), net.IPv4(10, 0, 0, 1)
+		if !bare {
+			s.ClientIP, s.ServerIP = net.IPv4(10, 0, 0, 2), net.IPv4(10, 0, 0, 1)
+		}
 	}
 	s.SetState(st)
 	return srv, s
@@ -196,6 +212,8 @@ func (c *fakeConn) SetReadDeadline(time.Time) error  { return nil }
 func (c *fakeConn) SetWriteDeadline(time.Time) error { return nil }
 
 type dhcpCfg struct {
+	mgrs       bool // QoS manager (with a policy manager) and NAT manager with one public address configured
+	nopool     bool // pool manager without any pool
 	loader     bool
 	radius     string // "", "accept", "reject", "acct-only"
 	prestate   string // "fresh", "leased", "leased82"
@@ -217,7 +235,9 @@ func newDHCP(c dhcpCfg) (*dhcp.Server, *fakeConn) {
 	if err != nil {
 		panic(err)
 	}
-	pm.AddPool(pool)
+	if !c.nopool {
+		pm.AddPool(pool)
+	}
 	s, err := dhcp.NewServer(dhcp.ServerConfig{Interface: "lo", ServerIP: net.IPv4(10, 0, 1, 1), RADIUSAuthEnabled: c.radius == "accept" || c.radius == "reject"}, ld, pm, nop)
 	if err != nil {
 		panic(err)
@@ -230,6 +250,21 @@ func newDHCP(c dhcpCfg) (*dhcp.Server, *fakeConn) {
 		}
 		s.SetRADIUSClient(rc)
 	}
+	if c.mgrs {
+		pol := radius.NewPolicyManager()
+		qm, err := qos.NewManager(qos.ManagerConfig{Interface: "lo"}, pol, nop) // never Start()ed: maps nil
+		if err != nil {
+			panic(err)
+		}
+		nm, err := nat.NewManager(nat.ManagerConfig{Interface: "lo"}, nop)
+		if err != nil {
+			panic(err)
+		}
+		nm.AddPublicIP(net.IPv4(203, 0, 113, 1))
+		s.SetPolicyManager(pol)
+		s.SetQoSManager(qm)
+		s.SetNATManager(nm)
+	}
 	fc := &fakeConn{}
 	peer := &net.UDPAddr{IP: net.IPv4(10, 0, 1, 50), Port: 68}
 	seeds := dhcp4Seeds()
@@ -241,11 +276,20 @@ func newDHCP(c dhcpCfg) (*dhcp.Server, *fakeConn) {
 		s.VerifC09Handle(fc, peer, seeds[3].data)
 		s.VerifC09Handle(fc, peer, seeds[2].data)
 	}
-	if c.prestate != "fresh" && s.ActiveLeases() != 1 {
+	if c.prestate != "fresh" && !c.nopool && s.ActiveLeases() != 1 {
 		panic(harnessErr("dhcp pre-state: lease not created"))
 	}
 	fc.writes = 0
 	return s, fc
+}
+
+func radiusClientFor(f *fakeRADIUS) *radius.Client {
+	rc, err := radius.NewClient(radius.ClientConfig{Servers: []radius.ServerConfig{{Host: "127.0.0.1", Port: f.auth.LocalAddr().(*net.UDPAddr).Port, Secret: coaSecret}},
+		NASID: "bng", Timeout: 5 * time.Second, Retries: 1, RateLimit: radius.RateLimitConfig{RequestsPerSecond: 1e9, BurstSize: 1 << 30}}, nop)
+	if err != nil {
+		panic(err)
+	}
+	return rc
 }
 
 // fakeRADIUS answers Access-Request (accept or reject) and Accounting-Request on two adjacent
@@ -337,10 +381,55 @@ func serverDUID6() []byte {
 	return append([]byte{0, 3, 0, 1}, ifc.HardwareAddr...)
 }
 
-func newDHCP6(pools bool, prestate string) *dhcpv6.Server {
-	cfg := dhcpv6.ServerConfig{Interface: "lo", DNSServers: []string{"2001:4860:4860::8888"}}
-	if pools {
-		cfg.AddressPool, cfg.PrefixPool, cfg.DelegationLength = "2001:db8::/120", "2001:db8:ff00::/56", 60
+// v6cfg: which of the four allocation back-ends the server is built with, and DNS on/off.
+// The handlers branch on each of them (hasAddressPool/hasPrefixPool/get*Lifetime/allocate*/release*).
+type v6cfg struct {
+	name string
+	addr string // "", "legacy", "integrated"
+	pd   string // "", "legacy", "integrated"
+	dns  bool
+}
+
+var v6cfgs = []v6cfg{
+	{"legacy addr+pd", "legacy", "legacy", true},
+	{"no pools", "", "", true},
+	{"integrated addr+pd", "integrated", "integrated", true},
+	{"integrated addr only", "integrated", "", true},
+	{"integrated pd only", "", "integrated", true},
+	{"legacy addr only", "legacy", "", false},
+	{"legacy pd only", "", "legacy", true},
+	{"integrated addr + legacy pd", "integrated", "legacy", false},
+}
+
+func newDHCP6(c v6cfg, prestate string) *dhcpv6.Server {
+	cfg := dhcpv6.ServerConfig{Interface: "lo"}
+	if c.dns {
+		cfg.DNSServers = []string{"2001:4860:4860::8888"}
+	}
+	if c.addr == "integrated" || c.pd == "integrated" {
+		cfg.AllocationStore = allocator.NewMemoryAllocationStore()
+	}
+	switch c.addr {
+	case "legacy":
+		cfg.AddressPool = "2001:db8::/120"
+	case "integrated":
+		a, err := allocator.NewPoolAllocatorWithType(allocator.PoolAllocatorConfig{PoolID: "v6addr", BaseNetwork: "2001:db8::/120", PrefixLength: 128,
+			PoolType: allocator.PoolTypeIPv6Address, Store: cfg.AllocationStore})
+		if err != nil {
+			panic(harnessErr("v6 address allocator: " + err.Error()))
+		}
+		cfg.AddressAllocator = a
+	}
+	switch c.pd {
+	case "legacy":
+		cfg.PrefixPool, cfg.DelegationLength = "2001:db8:ff00::/56", 60
+	case "integrated":
+		a, err := allocator.NewPoolAllocatorWithType(allocator.PoolAllocatorConfig{PoolID: "v6pd", BaseNetwork: "2001:db8:ff00::/56", PrefixLength: 60,
+			PoolType: allocator.PoolTypeIPv6Prefix, Store: cfg.AllocationStore})
+		if err != nil {
+			panic(harnessErr("v6 prefix allocator: " + err.Error()))
+		}
+		cfg.PrefixAllocator = a
 	}
 	s, err := dhcpv6.NewServer(cfg, nop)
 	if err != nil {
@@ -386,10 +475,26 @@ type coaCtx struct {
 	dirty  bool
 }
 
-func newCoA() (any, func()) {
+func newCoA() (any, func()) { return newCoACfg(false) }
+
+func newCoAHandlers() (any, func()) { return newCoACfg(true) }
+
+func newCoACfg(handlers bool) (any, func()) {
 	srv, err := radius.NewCoAServer(radius.CoAServerConfig{Address: "127.0.0.1:0", Secret: coaSecret}, nop)
 	if err != nil {
 		panic(err)
+	}
+	if handlers { // application handlers installed: NAK with Error-Cause + Reply-Message / ACK for disconnect
+		srv.SetCoAHandler(func(_ context.Context, r *radius.CoARequest) *radius.CoAResponse {
+			if r.SessionID == "" { // the fence carries no attributes and must be ACKed
+				return &radius.CoAResponse{Success: true}
+			}
+			return &radius.CoAResponse{Success: false, ErrorCause: radius.ErrorCauseSessionContextNotFound, Message: "no such session " + r.SessionID + r.Username + r.FilterID}
+		})
+		srv.SetDisconnectHandler(func(_ context.Context, r *radius.DisconnectRequest) *radius.DisconnectResponse {
+			return &radius.DisconnectResponse{Success: r.AcctSessionID != "", ErrorCause: radius.ErrorCauseMissingAttribute, Message: r.Username}
+		})
+		srv.SetSessionLookup(func(string) bool { return true })
 	}
 	sc, err := net.ListenUDP("udp4", &net.UDPAddr{IP: net.IPv4(127, 0, 0, 1)})
 	if err != nil {
@@ -673,6 +778,95 @@ func allTargets() []*target {
 			}})
 	}
 
+	// ---- the same handlers under the other configuration switches they branch on
+	for _, st := range []pppoe.SessionState{pppoe.StateAuthentication, pppoe.StateIPCPNegotiation, pppoe.StateEstablished} {
+		st := st
+		add(&target{name: fmt.Sprintf("pppoe.Server.handleSession[%s,no pool/no DNS]", st), entry: "pppoe.Server.handleSession", seeds: sessionSeeds(), wraps: sessWraps,
+			call: func(_ any, in []byte) bool {
+				srv, _ := newPPPoEServerCfg("pap", st, true, true, nil)
+				srv.VerifC09Session(clientMAC, in)
+				return srv.VerifC09Sent() > 0
+			}})
+	}
+	add(&target{name: "pppoe.Server.handleDiscovery[no session,default names]", entry: "pppoe.Server.handleDiscovery", seeds: discoverySeeds(),
+		call: func(_ any, in []byte) bool {
+			srv, _ := newPPPoEServerCfg("pap", 0, false, true, nil)
+			srv.VerifC09Discovery(clientMAC, in)
+			return srv.VerifC09Sent() > 0 || srv.GetSessionCount() > 0
+		}})
+	for _, accept := range []bool{true, false} {
+		accept := accept
+		mode := map[bool]string{true: "accept", false: "reject"}[accept]
+		newR := func() (any, func()) { f := startFakeRADIUS(accept); return f, f.close }
+		// handlePAP and the Authenticator call RADIUS synchronously (no goroutines): in-process is safe
+		add(&target{name: "pppoe.Server.handleSession[Authentication,RADIUS " + mode + "]", entry: "pppoe.Server.handleSession", seeds: sessionSeeds()[5:6], wraps: sessWraps[7:], newCtx: newR,
+			call: func(cx any, in []byte) bool {
+				srv, _ := newPPPoEServerCfg("pap", pppoe.StateAuthentication, true, false, radiusClientFor(cx.(*fakeRADIUS)))
+				srv.VerifC09Session(clientMAC, in)
+				return srv.VerifC09Sent() > 0
+			}})
+		for _, proto := range []uint16{pppoe.ProtocolPAP, pppoe.ProtocolCHAP} {
+			proto := proto
+			pn, seeds := "PAP", papSeeds()
+			if proto == pppoe.ProtocolCHAP {
+				pn, seeds = "CHAP", chapSeeds()
+			}
+			for _, prior := range []int{0, 5} {
+				prior := prior
+				if accept && prior > 0 {
+					continue
+				}
+				add(&target{name: fmt.Sprintf("pppoe.Authenticator.ReceivePacket[%s,pending,RADIUS %s,%d earlier failures]", pn, mode, prior), entry: "pppoe.Authenticator.ReceivePacket(" + pn + ")", seeds: seeds, newCtx: newR,
+					call: func(cx any, in []byte) bool {
+						cfg := pppoe.DefaultAuthConfig()
+						cfg.Protocol = proto
+						sc := &sentCounter{}
+						a := pppoe.NewAuthenticator(cfg, radiusClientFor(cx.(*fakeRADIUS)), sc.send, nop)
+						a.Start()
+						for i := 0; i < prior; i++ { // reach the rate-limited state
+							a.ReceivePacket(proto, append([]byte(nil), seeds[0].data...))
+						}
+						if prior > 0 && a.GetState() != pppoe.AuthStateFailure {
+							panic(harnessErr("authenticator failure pre-state not reached"))
+						}
+						return a.ReceivePacket(proto, in) == nil
+					}})
+			}
+		}
+	}
+	for _, st := range []string{"Starting", "Req-Sent", "Opened"} {
+		st := st
+		add(&target{name: "pppoe.IPCP.ReceivePacket[" + st + ",address from pool]", entry: "pppoe.IPCPStateMachine.ReceivePacket", seeds: ipcpSeeds(),
+			call: func(_ any, in []byte) bool {
+				cfg := pppoe.DefaultIPCPConfig()
+				cfg.RestartTimer = time.Hour
+				pool, err := pppoe.NewIPPool("10.0.0.0/29", "10.0.0.1")
+				if err != nil {
+					panic(err)
+				}
+				cfg.IPPool = pool
+				sc := &sentCounter{}
+				m := pppoe.NewIPCPStateMachine(cfg, "sess", sc.send, nop)
+				script(m, st, ipcpSeeds()[1].data)
+				defer m.Down()
+				return m.ReceivePacket(in) == nil
+			}})
+		add(&target{name: "pppoe.LCP.ReceivePacket[" + st + ",CHAP+PFC+ACFC]", entry: "pppoe.LCPStateMachine.ReceivePacket", seeds: lcpSeeds(),
+			call: func(_ any, in []byte) bool {
+				cfg := pppoe.DefaultLCPConfig()
+				cfg.MagicNumber, cfg.RestartTimer = ourMagic, time.Hour
+				cfg.AuthProtocol, cfg.PFC, cfg.ACFC = pppoe.ProtocolCHAP, true, true
+				sc := &sentCounter{}
+				m, err := pppoe.NewLCPStateMachine(cfg, sc.send, nop)
+				if err != nil {
+					panic(err)
+				}
+				script(m, st, lcpSeeds()[0].data)
+				defer m.Down()
+				return m.ReceivePacket(in) == nil
+			}})
+	}
+
 	// ---- DHCPv4 slow path
 	peer4 := &net.UDPAddr{IP: net.IPv4(10, 0, 1, 50), Port: 68}
 	for _, loader := range []bool{false, true} {
@@ -687,6 +881,17 @@ func allTargets() []*target {
 					return s.VerifC09Handle(fc, peer4, in) && fc.writes > 0
 				}})
 		}
+	}
+	for _, c := range []dhcpCfg{{mgrs: true, prestate: "fresh"}, {mgrs: true, prestate: "leased"}, {mgrs: true, loader: true, prestate: "leased82"}, {nopool: true, prestate: "fresh"}} {
+		c := c
+		add(&target{name: fmt.Sprintf("dhcp.Server.handleDHCP[no RADIUS,qos+nat=%v,no pool=%v,loader=%v,%s]", c.mgrs, c.nopool, c.loader, c.prestate), entry: "dhcp.Server.handleDHCP", seeds: dhcp4Seeds(), light: true,
+			call: func(_ any, in []byte) bool {
+				if !dhcp.VerifC09Decodes(in) {
+					return false
+				}
+				s, fc := newDHCP(c)
+				return s.VerifC09Handle(fc, peer4, in) && fc.writes > 0
+			}})
 	}
 	for _, mode := range []string{"accept", "reject", "acct-only"} {
 		for _, ps := range []string{"fresh", "leased"} {
@@ -714,34 +919,35 @@ func allTargets() []*target {
 	}
 
 	// ---- DHCPv6 message handler with / without a lease, with / without pools
-	for _, v := range []struct {
-		pools bool
-		ps    string
-	}{{true, "no lease"}, {true, "lease"}, {false, "no lease"}} {
-		v := v
-		add(&target{name: fmt.Sprintf("dhcpv6.Server.handleMessage[pools=%v,%s]", v.pools, v.ps), entry: "dhcpv6.Server.handleMessage", seeds: dhcp6Seeds(sd),
-			wraps: []func([]byte) []byte{
-				func(p []byte) []byte { return append([]byte{1, 0, 0, 1, 0, 1, 0, byte(len(p))}, p...) }, // Solicit, ClientID = p
-				func(p []byte) []byte {
-					return append(append([]byte{1, 0, 0, 1, 0, 1, 0, 2, 0, 1}, 0, 3, 0, byte(len(p))), p...)
-				}, // Solicit, IA_NA = p
-				func(p []byte) []byte {
-					return append(append([]byte{4, 0, 0, 1, 0, 1, 0, 2, 0, 1}, 0, 3, 0, byte(12+len(p))), append(iaBody(1, 0, 0), p...)...)
-				}, // Confirm, IA_NA options = p
-			},
-			call: func(_ any, in []byte) bool {
-				if _, err := dhcpv6.ParseMessage(in); err != nil { // receiveLoop drops it before handleMessage
-					return false
-				}
-				s := newDHCP6(v.pools, v.ps)
-				return s.VerifC09Handle(in, from6)
-			}})
+	for _, c := range v6cfgs {
+		for _, ps := range []string{"no lease", "lease"} {
+			c, ps := c, ps
+			add(&target{name: fmt.Sprintf("dhcpv6.Server.handleMessage[%s,%s]", c.name, ps), entry: "dhcpv6.Server.handleMessage", seeds: dhcp6Seeds(sd),
+				wraps: []func([]byte) []byte{
+					func(p []byte) []byte { return append([]byte{1, 0, 0, 1, 0, 1, 0, byte(len(p))}, p...) }, // Solicit, ClientID = p
+					func(p []byte) []byte {
+						return append(append([]byte{1, 0, 0, 1, 0, 1, 0, 2, 0, 1}, 0, 3, 0, byte(len(p))), p...)
+					}, // Solicit, IA_NA = p
+					func(p []byte) []byte {
+						return append(append([]byte{4, 0, 0, 1, 0, 1, 0, 2, 0, 1}, 0, 3, 0, byte(12+len(p))), append(iaBody(1, 0, 0), p...)...)
+					}, // Confirm, IA_NA options = p
+				},
+				call: func(_ any, in []byte) bool {
+					if _, err := dhcpv6.ParseMessage(in); err != nil { // receiveLoop drops it before handleMessage
+						return false
+					}
+					s := newDHCP6(c, ps)
+					return s.VerifC09Handle(in, from6)
+				}})
+		}
 	}
 
 	// ---- RADIUS CoA / Disconnect listener (real receive loop over loopback, fenced)
 	add(&target{name: "radius.CoAServer.receiveLoop[as sent]", entry: "radius.CoAServer.receiveLoop", seeds: coaSeeds(), newCtx: newCoA, call: coaCall})
 	add(&target{name: "radius.CoAServer.receiveLoop[authenticator recomputed]", entry: "radius.CoAServer.receiveLoop", seeds: coaSeeds(), newCtx: newCoA, call: coaCall, prep: coaSign,
 		wraps: []func([]byte) []byte{func(p []byte) []byte { return fixCP(append(append([]byte{43, 1, 0, 0}, make([]byte, 16)...), p...)) }}})
+
+	add(&target{name: "radius.CoAServer.receiveLoop[authenticator recomputed,handlers installed]", entry: "radius.CoAServer.receiveLoop", seeds: coaSeeds(), newCtx: newCoAHandlers, call: coaCall, prep: coaSign})
 
 	// ---- HA: SSE data handler on a standby
 	for _, ps := range []string{"empty", "synced"} {
